@@ -121,51 +121,66 @@ Eff(op, o, x, s, cap, cmp) ==
             ELSE [s EXCEPT ![o] = t.els],
      ret |-> t.ret, out |-> t.out]
 
-\* the relation a recorded (post, ret, out) has to satisfy
-Post(op, o, x, s, cap, cmp, t, r, out) ==
+\* the relation a recorded (post, ret, out) has to satisfy: the state part ...
+PostState(op, o, x, s, cap, cmp, t) ==
+    IF op = "ms_ctor_cont"
+    THEN SortedPerm(cmp, x.xs, t[o]) /\ \A p \in {"a", "b"} \ {o} : t[p] = s[p]
+    ELSE t = Eff(op, o, x, s, cap, cmp).st
+\* ... and the returned iterator / flag / count / container
+PostRet(op, o, x, s, cap, cmp, r, out) ==
     LET ef == Eff(op, o, x, s, cap, cmp) IN
-    /\ IF op = "ms_ctor_cont"
-       THEN SortedPerm(cmp, x.xs, t[o]) /\ \A p \in {"a", "b"} \ {o} : t[p] = s[p]
-       ELSE t = ef.st
     /\ IF op \in InsOps /\ FullNew(s[o], cap, x.v)
        THEN r.n = 0                      \* "reports failure": which iterator accompanies it is left open
        ELSE r = ef.ret
     /\ out = ef.out
+Post(op, o, x, s, cap, cmp, t, r, out) ==
+    PostState(op, o, x, s, cap, cmp, t) /\ PostRet(op, o, x, s, cap, cmp, r, out)
 
 \* ---- observers: functions of the abstract contents only --------------------------------------------
+\* Observer groups (a deviation names the group, so that a known defect in one group cannot hide another):
+\*   size  : size empty full max_size            iter  : begin..end, cbegin..cend, rbegin..rend, crbegin..crend
+\*   find  : find contains count (key_type)      bound : lower_bound upper_bound equal_range (key_type)
+\*   hfind / hbound : the same through the heterogeneous overloads of a transparent comparator
+ObsGroups == <<"size", "iter", "find", "bound", "hfind", "hbound">>
+
 \* one lookup record r for probe key r.k (fields of overloads the instantiation lacks are absent)
-LkOK(r, e, cmp) ==
-    LET k == r.k lb == LB(cmp, e, k) ub == UB(cmp, e, k) f == FindIdx(cmp, e, k) IN
+FindOK(r, e, cmp) ==
+    LET f == FindIdx(cmp, e, r.k) IN
     /\ "f" \in DOMAIN r => r.f = f
     /\ "cf" \in DOMAIN r => r.cf = f
-    /\ "has" \in DOMAIN r => r.has = Has(cmp, e, k)
-    /\ "cnt" \in DOMAIN r => r.cnt = (IF Has(cmp, e, k) THEN 1 ELSE 0)
+    /\ "has" \in DOMAIN r => r.has = Has(cmp, e, r.k)
+    /\ "cnt" \in DOMAIN r => r.cnt = (IF Has(cmp, e, r.k) THEN 1 ELSE 0)
+BoundOK(r, e, cmp) ==
+    LET lb == LB(cmp, e, r.k) ub == UB(cmp, e, r.k) IN
     /\ "lb" \in DOMAIN r => r.lb = lb
     /\ "clb" \in DOMAIN r => r.clb = lb
     /\ "ub" \in DOMAIN r => r.ub = ub
     /\ "cub" \in DOMAIN r => r.cub = ub
     /\ "er" \in DOMAIN r => r.er = <<lb, ub>>
     /\ "cer" \in DOMAIN r => r.cer = <<lb, ub>>
+\* every key of the universe was probed, and every answer passes T
+Probed(lk, univ, T(_)) ==
+    /\ {lk[j].k : j \in 1..Len(lk)} = {univ[j] : j \in 1..Len(univ)}
+    /\ \A j \in 1..Len(lk) : T(lk[j])
 
-ObsOne(ob, e, cmp, cap, univ) ==
-    /\ ob.size = Len(e)
-    /\ ob.empty = (Len(e) = 0)
-    /\ "full" \in DOMAIN ob => ob.full = (Len(e) = cap)
-    /\ "maxsize" \in DOMAIN ob => ob.maxsize = cap
-    /\ ob.fwd = e
-    /\ ob.cfwd = e
-    /\ ob.rev = Rev(e)
-    /\ ob.crev = Rev(e)
-    /\ "lk" \in DOMAIN ob =>
-          /\ {ob.lk[j].k : j \in 1..Len(ob.lk)} = {univ[j] : j \in 1..Len(univ)}     \* every key was probed
-          /\ \A j \in 1..Len(ob.lk) : LkOK(ob.lk[j], e, cmp)
-    /\ "hlk" \in DOMAIN ob =>                                                        \* heterogeneous probes
-          /\ {ob.hlk[j].k : j \in 1..Len(ob.hlk)} = {univ[j] : j \in 1..Len(univ)}
-          /\ \A j \in 1..Len(ob.hlk) : LkOK(ob.hlk[j], e, cmp)
+ObsGroupOne(g, ob, e, cmp, cap, univ) ==
+    CASE g = "size" -> /\ ob.size = Len(e)
+                       /\ ob.empty = (Len(e) = 0)
+                       /\ "full" \in DOMAIN ob => ob.full = (Len(e) = cap)
+                       /\ "maxsize" \in DOMAIN ob => ob.maxsize = cap
+      [] g = "iter" -> ob.fwd = e /\ ob.cfwd = e /\ ob.rev = Rev(e) /\ ob.crev = Rev(e)
+      [] g = "find" -> "lk" \in DOMAIN ob => Probed(ob.lk, univ, LAMBDA r : FindOK(r, e, cmp))
+      [] g = "bound" -> "lk" \in DOMAIN ob => Probed(ob.lk, univ, LAMBDA r : BoundOK(r, e, cmp))
+      [] g = "hfind" -> "hlk" \in DOMAIN ob => Probed(ob.hlk, univ, LAMBDA r : FindOK(r, e, cmp))
+      [] g = "hbound" -> "hlk" \in DOMAIN ob => Probed(ob.hlk, univ, LAMBDA r : BoundOK(r, e, cmp))
 
-ObsOK(obs, t, cmp, cap, univ) ==
-    /\ ObsOne(obs.a, t.a, cmp, cap, univ)
-    /\ ObsOne(obs.b, t.b, cmp, cap, univ)
+ObsGroupOK(g, obs, t, cmp, cap, univ) ==
+    ObsGroupOne(g, obs.a, t.a, cmp, cap, univ) /\ ObsGroupOne(g, obs.b, t.b, cmp, cap, univ)
+
+\* the groups that deviate (sequence of "obs-<group>")
+ObsBad(obs, t, cmp, cap, univ) ==
+    LET bad == SelectSeq(ObsGroups, LAMBDA g : ~ObsGroupOK(g, obs, t, cmp, cap, univ)) IN
+    [j \in 1..Len(bad) |-> "obs-" \o bad[j]]
 
 \* what the observers should have answered (for deviation reports)
 LkExp(e, cmp, k) ==
